@@ -2,13 +2,46 @@
 NOT_YET = "contracts for this property are not finished in this commit (work in progress; see DESIGN.md build order)"
 NOT_CLAIMED = {f"C{i:02d}": NOT_YET for i in range(1, 21)}
 
+COMMON_NOTE = "float = real (A-REAL), no NaN/inf (A-FINITE); library contracts (heapq, list, random, math) trusted as stated in DESIGN.md App. B; static dispatch"
+
 PROPS = {
     "C08": {
         "level": "proof",
         "level_text": "postconditions and frames of the price/quote/statistics functions proved for all inputs from the real AST",
-        "level_note": "float = real (A-REAL), no NaN/inf (A-FINITE); heapq trusted",
-        "tasks": ["Market._update_market_price"],
+        "level_note": COMMON_NOTE,
+        "tasks": ["Market._update_market_price", "Market._add_order"],
         "not_decided": [],
         "assumptions": [],
     },
+    "C14": {
+        "level": "proof",
+        "level_text": "contracts of both shocks (hook registration window/target, hook body effect and frame, change_fundamental_price) discharged for all inputs",
+        "level_note": COMMON_NOTE + "; values of a name->market dict pairwise distinct",
+        "tasks": ["OrderMistakeShock.hooked_before_order", "OrderMistakeShock.hook_registration", "FundamentalPriceShock.hooked_before_step_for_market",
+                  "FundamentalPriceShock.hook_registration", "Market.change_fundamental_price"],
+        "not_decided": [],
+    },
+    "C15": {
+        "level": "proof",
+        "level_text": "band clipping, inside-unchanged, market orders and non-target orders untouched: postconditions of the rule's functions discharged for all prices/rates/markets",
+        "level_note": COMMON_NOTE,
+        "tasks": ["PriceLimitRule.get_limited_price", "PriceLimitRule.hooked_before_order", "PriceLimitRule.hook_registration", "Market._add_order"],
+        "not_decided": [],
+    },
+    "C16": {
+        "level": "proof",
+        "level_text": "halt decision, resumption schedule and the execution-gate invariant of the halt rule's two hooks discharged for all states",
+        "level_note": COMMON_NOTE + "; ghost configured_exec per session",
+        "tasks": ["TradingHaltRule.hooked_after_execution", "TradingHaltRule.hooked_before_step_for_market"],
+        "not_decided": [],
+    },
+    "C19": {
+        "level": "proof",
+        "level_text": "rounding direction, distance < 1 tick, grid membership and on-grid-unchanged are postconditions of Market._add_order, discharged in real arithmetic for every tick > 0 and price",
+        "level_note": COMMON_NOTE + "; the float grid effect (0.3 % 0.1) is outside the claim, as the property itself states",
+        "tasks": ["Market._add_order"],
+        "not_decided": ["IEEE-754 representation of the grid"],
+    },
 }
+for k in PROPS:
+    NOT_CLAIMED.pop(k, None)
